@@ -481,7 +481,10 @@ class HistogramND(HistogramBase):
         # TODO: inplace
         new_one = self.copy()
         axis_id = self._get_axis(axis)
-        new_one._frequencies = np.cumsum(new_one.frequencies, axis_id)
+        cumulative = np.cumsum(new_one.frequencies, axis_id)
+        # numpy accumulates narrow integers in a wider type: keep dtype & errors2 in step
+        new_one._coerce_dtype(cumulative.dtype)
+        new_one._frequencies = cumulative
         return new_one
 
     def projection(self, *axes: Axis, **kwargs) -> HistogramBase:
